@@ -5,6 +5,7 @@ character count); a buffer only counts/records the bits appended to it."""
 from .. import ev, iso
 from ..interp import Interp, FuncVal, callable_env
 from ..src import Unknown
+from ..ev import PyRaise
 
 
 class BufModel:
@@ -180,5 +181,14 @@ def trace_encode(fx, version, level, boosted, mask_in=None, eci=False, sa_info=N
     have = _src.all_params(fx.fn('encoder', '_encode'))
     if have != ['segments', 'error', 'version', 'mask', 'eci', 'boost_error', 'sa_info']:
         raise Unknown(f'_encode has another interface than the rules drive it through: {have}')
+    if isinstance(sa_info, SAModel):
+        # the Structured Append information as the repository's own class builds it from (number, total, parity)
+        cls_ = genv.get('_StructuredAppendInfo')
+        if cls_ is None or isinstance(cls_, FuncVal) or not callable(cls_):
+            raise Unknown('no class _StructuredAppendInfo: the internal interface changed')
+        try:
+            sa_info = cls_(number=sa_info[1], total=sa_info[2], parity=sa_info[3])
+        except PyRaise as ex:
+            raise Unknown(f'_StructuredAppendInfo(number=, total=, parity=) raises {ex.name}: the internal interface changed')
     res = FuncVal(fx.fn('encoder', '_encode'), genv, it).call_in_order(segs, None if level is None else lv[level], version, mask_in, eci, boost_error, sa_info)
     return rec, res, dict(buffers=bufs, segments=segs, M0=M0, M1=M1, genv=genv, interp=it)
